@@ -184,7 +184,9 @@ C09_refused(o) == (Targets(o.cmd) \cap o.gone # {}
 C09_noreissue(o) == /\ \A i \in DOMAIN o.post \ DOMAIN o.pre : i \notin o.gone
                     /\ (o.cmd.name \in {"new_task", "new_epic", "plan"} =>
                           \A k \in 1..Len(o.cmd.newids) : o.cmd.newids[k] \notin o.gone)
-                    /\ (o.cmd.name \in {"new_task", "new_epic", "plan"} /\ o.exit = 0 => o.reply.id \notin o.gone)
+                    /\ (o.cmd.name \in {"new_task", "new_epic", "plan"} /\ o.exit = 0 =>
+                          /\ o.reply.id \notin o.gone
+                          /\ \A k \in 1..Len(o.reply.ids) : o.reply.ids[k] \notin o.gone)
 
 (***************************************************************************)
 (* C10 - a command that fails changes nothing.                             *)
